@@ -111,9 +111,9 @@ pub fn k_history<T: Real>(case: &Case) -> Outcome {
                 ));
             }
             worst = worst.max(e / b);
-            // the last request of a history (and every request of a short one) also through the other three entry points,
+            // the last request of a history also through the other three entry points,
             // each with exactly its advertised scratch: a spliced inner transform with unusual scratch needs shows here
-            if vi == 0 && (i + 1 == reqs.len() || reqs.len() <= 3) {
+            if vi == 0 && i + 1 == reqs.len() {
                 for e2 in ENTRIES {
                     if e2 == entry {
                         continue;
